@@ -780,6 +780,8 @@ Proof.
   intros lc lp pb dict p data evs stream tail sizes Hlc Hlp Hs Hpb Hdict Hpne Hplen Hpb' Hbytes Hne Hw Hsizes.
   pose proof (lzma2_frame_sync lc lp pb dict (Some p) data evs stream Hdict Hne Hw) as Hck.
   cbn [start_level preset_list] in Hck.
+  assert (Hlvl : match p with [] => RDict | _ :: _ => RProps end = RProps) by (destruct p; [congruence | reflexivity]).
+  rewrite Hlvl in Hck. clear Hlvl.
   unfold lzma2_new, lzma2_get_dict_size. cbn [obind]. fold (l2_window_size dict).
   eexists. split; [reflexivity|]. intros fuel Hf.
   set (h0 := ehist_new dict p data) in *.
